@@ -135,6 +135,7 @@ func Load(dir string, bc BuildConfig, overlay map[string][]byte) (*Program, erro
 	var notes []string
 	cur := overlay
 	funcAliases = map[string]*types.Func{}
+	keepHelpers = false
 	notes = append(notes, p.computeAliases(known)...)
 	for round := 1; round <= 4; round++ {
 		ov, ns := p.normaliseOnce(known, round)
@@ -149,6 +150,21 @@ func Load(dir string, bc BuildConfig, overlay map[string][]byte) (*Program, erro
 			merged[k] = v
 		}
 		p2, err2 := loadRaw(dir, bc, merged)
+		if err2 != nil && !keepHelpers {
+			// once more without removing the helpers that became unused
+			keepHelpers = true
+			ov, ns = p.normaliseOnce(known, round)
+			if ov != nil {
+				merged = map[string][]byte{}
+				for k, v := range cur {
+					merged[k] = v
+				}
+				for k, v := range ov {
+					merged[k] = v
+				}
+				p2, err2 = loadRaw(dir, bc, merged)
+			}
+		}
 		if err2 != nil {
 			notes = append(notes, "normalisation abandoned in round "+fmt.Sprint(round)+" (the inlined program does not type-check: "+firstLine(err2.Error())+"); the program is analysed as it is from that round on")
 			break
